@@ -729,3 +729,147 @@ fn space_publication(ctx: &Ctx, fx: &Fx) {
     sp.sample_str(|| String::from_utf8_lossy(&pub_write(&publ::Message::error(publ::ErrorReply::for_error(publ::ReportError::with_code(CODES[3].clone()))))).into_owned());
     col.finish(true, "list replies up to 3 elements, error replies up to 2 reports");
 }
+
+//============ RFC 6492 provisioning messages ================================
+
+#[derive(Clone, Copy, Debug)]
+struct Issued { uri: usize, la: usize, lb: usize, lc: usize, cert: usize }
+
+#[derive(Clone, Debug)]
+struct Class { name: usize, url: usize, asn: usize, v4: usize, v6: usize, time: usize, signing: usize, issued: Vec<Issued> }
+
+fn issued_of(fx: &Fx, i: Issued) -> prov::IssuedCert {
+    prov::IssuedCert::new(fx.rsyncs[i.uri].clone(), fx.limit(i.la, i.lb, i.lc), fx.certs[i.cert % fx.certs.len()].1.clone())
+}
+
+fn class_of(fx: &Fx, c: &Class) -> prov::ResourceClassEntitlements {
+    prov::ResourceClassEntitlements::new(
+        fx.class(c.name), ResourceSet::new(fx.asn[c.asn].clone(), fx.v4[c.v4].clone(), fx.v6[c.v6].clone()), fx.times[c.time],
+        c.issued.iter().map(|i| issued_of(fx, *i)).collect(),
+        prov::SigningCert::new(fx.rsyncs[c.url].clone(), fx.certs[c.signing % fx.certs.len()].1.clone()))
+}
+
+fn show_limit(fx: &Fx, a: usize, b: usize, c: usize) -> String {
+    let f = |i: usize, s: String| if i == 0 { "None".to_string() } else { format!("Some({s:?})") };
+    format!("limit(as={},v4={},v6={})",
+        f(a, if a > 0 { fx.asn[a - 1].to_string() } else { String::new() }),
+        f(b, if b > 0 { fx.v4[b - 1].to_string() } else { String::new() }),
+        f(c, if c > 0 { fx.v6[c - 1].to_string() } else { String::new() }))
+}
+
+fn show_issued(fx: &Fx, i: Issued) -> String {
+    format!("certificate(uri={},{},cert={})", trunc(fx.rsyncs[i.uri].as_str(), 80), show_limit(fx, i.la, i.lb, i.lc), fx.certs[i.cert % fx.certs.len()].0)
+}
+
+fn show_class(fx: &Fx, c: &Class) -> String {
+    format!("class(name={},cert_url={},as={:?},v4={:?},v6={:?},notafter={},issuer={},[{}])",
+        show(&trunc(&fx.texts[c.name + 1], 80)), trunc(fx.rsyncs[c.url].as_str(), 80), fx.asn[c.asn].to_string(), fx.v4[c.v4].to_string(), fx.v6[c.v6].to_string(),
+        fx.times[c.time].to_rfc3339(), fx.certs[c.signing % fx.certs.len()].0,
+        c.issued.iter().map(|i| show_issued(fx, *i)).collect::<Vec<_>>().join(","))
+}
+
+fn show_hh(fx: &Fx, s: usize, r: usize) -> String { format!("sender={},recipient={}", trunc(&fx.handles[s], 40), trunc(&fx.handles[r], 40)) }
+
+fn space_provisioning(ctx: &Ctx, fx: &Fx) {
+    let k = ctx.tier.pick(1, 2);
+    let nh = fx.handles.len();
+    let special = fx.texts.iter().position(|t| t == "<&").map(|p| p - 1).unwrap_or(2);
+    let core_class = [0usize, special];
+    let core_h = [0usize, nh - 4];       // "a" and the 254-octet handle
+    let long_h = [nh - 3];                // 255 octets
+
+    // --- list, revoke, revoke_response, error_response
+    let sp = ctx.space("prov.simple",
+        "Message::list over sender x recipient handles; revoke and revoke_response (via From<&RevocationRequest>) over handles x class name x key; not_performed_response for all 11 codes; star product; non-trivial = distinct written documents");
+    let col = Collector::new(sp.clone());
+    let cases = star(&[nh, nh], &[&core_h, &core_h], k);
+    run_cases(&cases, &col, |c, l| {
+        let m = prov::Message::list(fx.handle(c[0]), fx.handle(c[1]));
+        roundtrip(ctx, "prov", l, &m, &|| format!("prov.list({})", show_hh(fx, c[0], c[1])), &prov_write, &prov_parse);
+    });
+    let cases = star(&[2, nh, nh, fx.n_classes(), fx.keys.len()], &[&[0, 1], &core_h, &long_h, &core_class, &[2, 3]], k);
+    run_cases(&cases, &col, |c, l| {
+        let req = prov::RevocationRequest::new(fx.class(c[3]), fx.keys[c[4]]);
+        let m = if c[0] == 0 { prov::Message::revoke(fx.handle(c[1]), fx.handle(c[2]), req) }
+            else { prov::Message::revoke_response(fx.handle(c[1]), fx.handle(c[2]), prov::RevocationResponse::from(&req)) };
+        roundtrip(ctx, "prov", l, &m, &|| format!("prov.{}({},class={},key={})", ["revoke", "revoke_response"][c[0]], show_hh(fx, c[1], c[2]),
+            show(&trunc(&fx.texts[c[3] + 1], 80)), fx.keys[c[4]]), &prov_write, &prov_parse);
+    });
+    let errs: [(u64, fn() -> prov::NotPerformedResponse); 11] = [
+        (1101, prov::NotPerformedResponse::err_1101), (1102, prov::NotPerformedResponse::err_1102), (1103, prov::NotPerformedResponse::err_1103),
+        (1104, prov::NotPerformedResponse::err_1104), (1201, prov::NotPerformedResponse::err_1201), (1202, prov::NotPerformedResponse::err_1202),
+        (1203, prov::NotPerformedResponse::err_1203), (1204, prov::NotPerformedResponse::err_1204), (1301, prov::NotPerformedResponse::err_1301),
+        (1302, prov::NotPerformedResponse::err_1302), (2001, prov::NotPerformedResponse::err_2001)];
+    let mut l = Local::default();
+    for (code, f) in errs { for h in [0usize, nh - 3] {
+        let m = prov::Message::not_performed_response(fx.handle(h), fx.handle(0), f()).expect("constructor");
+        if m.payload().payload_type().as_ref() != "error_response" { ctx.machinery_error("unexpected payload type") }
+        roundtrip(ctx, "prov", &mut l, &m, &|| format!("prov.error_response({},code={code})", show_hh(fx, h, 0)), &prov_write, &prov_parse);
+    }}
+    col.merge(l);
+    sp.sample_str(|| String::from_utf8_lossy(&prov_write(&prov::Message::revoke(fx.handle(0), fx.handle(1), prov::RevocationRequest::new(fx.class(special), fx.keys[3])))).into_owned());
+    sp.set("alphabet_sizes", serde_json::json!({"handles": nh, "class_names": fx.n_classes(), "keys": fx.keys.len(), "k": k}));
+    col.finish(true, &format!("star product, k = {k}; all 11 codes"));
+
+    // --- issue
+    let sp = ctx.space("prov.issue",
+        "Message::issue: class name x limit (None or every AS / IPv4 / IPv6 atom, full product of the three) x CSR x handles; star product over class name and handles, full product over the limit; non-trivial = distinct written documents");
+    let col = Collector::new(sp.clone());
+    let (na, nb, nc) = (fx.asn.len() + 1, fx.v4.len() + 1, fx.v6.len() + 1);
+    let all_a: Vec<usize> = (0..na).collect(); let all_b: Vec<usize> = (0..nb).collect(); let all_c: Vec<usize> = (0..nc).collect();
+    let all_csr: Vec<usize> = (0..fx.csrs.len()).collect();
+    let cases = star(&[nh, fx.n_classes(), na, nb, nc, fx.csrs.len()], &[&core_h, &core_class[1..], &all_a, &all_b, &all_c, &all_csr[..1]], 1);
+    run_cases(&cases, &col, |c, l| {
+        let m = prov::Message::issue(fx.handle(c[0]), fx.handle(0), prov::IssuanceRequest::new(fx.class(c[1]), fx.limit(c[2], c[3], c[4]), fx.csrs[c[5]].1.clone()));
+        roundtrip(ctx, "prov", l, &m, &|| format!("prov.issue({},class={},{},csr={})", show_hh(fx, c[0], 0), show(&trunc(&fx.texts[c[1] + 1], 80)),
+            show_limit(fx, c[2], c[3], c[4]), fx.csrs[c[5]].0), &prov_write, &prov_parse);
+    });
+    sp.set("limit_product", serde_json::json!(na * nb * nc));
+    sp.sample_str(|| String::from_utf8_lossy(&prov_write(&prov::Message::issue(fx.handle(0), fx.handle(0), prov::IssuanceRequest::new(fx.class(special), fx.limit(6, 8, 8), fx.csrs[0].1.clone())))).into_owned());
+    col.finish(true, "full limit product x star(k = 1) over class name, handle, CSR");
+
+    // --- issue_response: one class with one certificate, star over all fields
+    let sp = ctx.space("prov.issue_response",
+        "Message::issue_response: class name x cert_url x AS x IPv4 x IPv6 x not-after x issued(uri, limit, certificate) x signing certificate; star product, plus the full product of the three resource atoms; non-trivial = distinct written documents");
+    let col = Collector::new(sp.clone());
+    let nr = fx.rsyncs.len();
+    let full = [fx.n_classes(), nr, fx.asn.len(), fx.v4.len(), fx.v6.len(), fx.times.len(), nr, na, nb, nc, fx.certs.len(), fx.certs.len()];
+    let cores: [&[usize]; 12] = [&core_class[1..], &[3], &[5], &[7], &[7], &[0], &[4], &[0], &[3], &[0], &[1], &[0]];
+    let mut cases = star(&full, &cores, k);
+    for a in 0..fx.asn.len() { for b in 0..fx.v4.len() { for c in 0..fx.v6.len() {
+        cases.push(vec![special, 3, a, b, c, 0, 4, 0, 3, 0, 1, 0]);
+    }}}
+    run_cases(&cases, &col, |c, l| {
+        let cl = Class { name: c[0], url: c[1], asn: c[2], v4: c[3], v6: c[4], time: c[5], signing: c[11],
+            issued: vec![Issued { uri: c[6], la: c[7], lb: c[8], lc: c[9], cert: c[10] }] };
+        let e = class_of(fx, &cl);
+        let m = prov::Message::issue_response(fx.handle(0), fx.handle(1), prov::IssuanceResponse::new(
+            e.class_name().clone(), e.resource_set().clone(), e.not_after(), e.issued_certs()[0].clone(), e.signing_cert().clone()));
+        roundtrip(ctx, "prov", l, &m, &|| format!("prov.issue_response({},{})", show_hh(fx, 0, 1), show_class(fx, &cl)), &prov_write, &prov_parse);
+    });
+    sp.set("resource_product", serde_json::json!(fx.asn.len() * fx.v4.len() * fx.v6.len()));
+    col.finish(true, &format!("star product, k = {k}, plus all resource-set triples"));
+
+    // --- list_response: 0..=2 classes x 0..=2 certificates
+    let sp = ctx.space("prov.list_response",
+        "Message::list_response with every sequence of 0..=2 classes, each class one of 4 templates x every sequence of 0..=2 issued certificates over 3 certificate templates; non-trivial = distinct written documents");
+    let col = Collector::new(sp.clone());
+    let its = [Issued { uri: 3, la: 0, lb: 0, lc: 0, cert: 1 }, Issued { uri: 4, la: 6, lb: 8, lc: 8, cert: 2 }, Issued { uri: 1, la: 1, lb: 1, lc: 1, cert: 3 }];
+    let mut iseqs: Vec<Vec<Issued>> = vec![vec![]];
+    for a in its { iseqs.push(vec![a]); for b in its { iseqs.push(vec![a, b]) } }
+    let mut calpha: Vec<Class> = Vec::new();
+    for (name, url, asn, v4, v6, time, signing) in [(0usize, 1usize, 0usize, 0usize, 0usize, 1usize, 0usize), (special, 3, 5, 7, 7, 0, 1), (1, 4, 4, 1, 1, 2, 0), (special, 3, 6, 9, 8, 3, 2)] {
+        for is in &iseqs { calpha.push(Class { name, url, asn, v4, v6, time, signing, issued: is.clone() }) }
+    }
+    let n = calpha.len() as u64;
+    let idxs: Vec<u64> = (0..rpki_verif::engine::enumerate::seq_count(n, 2)).collect();
+    run_cases(&idxs, &col, |i, l| {
+        let mut s = Vec::new();
+        rpki_verif::engine::enumerate::seq_at(n, 2, *i, &mut s);
+        let m = prov::Message::list_response(fx.handle(0), fx.handle(1),
+            prov::ResourceClassListResponse::new(s.iter().map(|j| class_of(fx, &calpha[*j])).collect()));
+        roundtrip(ctx, "prov", l, &m, &|| format!("prov.list_response({},[{}])", show_hh(fx, 0, 1), s.iter().map(|j| show_class(fx, &calpha[*j])).collect::<Vec<_>>().join(";")), &prov_write, &prov_parse);
+    });
+    sp.set("class_alphabet", serde_json::json!(calpha.len()));
+    col.finish(true, "all sequences of <= 2 classes x <= 2 certificates");
+}
